@@ -142,10 +142,27 @@ M = [
     ("M20s", "C20", DI, "    back = pd.read_csv(path, index_col=0)\n    if not return_bins:\n",
      "    global _BACKGROUND\n    if '_BACKGROUND' not in globals():\n        _BACKGROUND = pd.read_csv(path, index_col=0)\n    back = _BACKGROUND\n    if not return_bins:\n",
      "load_pcDelta_background caches the packaged table at module level and hands the same object to every caller"),
+    ("M20u", "C20", DI,
+     "    strings = list(strings)\n    m = len(strings)\n    dm = np.empty((m * (m - 1)) // 2, dtype=dtype)\n    k = 0\n    for i in range(0, m - 1):\n        for j in range(i + 1, m):\n            dm[k] = metric(strings[i], strings[j], **kwargs)\n            k += 1\n    return dm\n",
+     "    strings = list(strings)\n    m = len(strings)\n    _cache = os.path.join(os.path.expanduser('~'), '.cache', 'pyrepseq', 'pdist-%d-%d-%s.npy' % (m, sum(map(len, strings)), np.dtype(dtype).name))\n"
+     "    if metric is levenshtein_distance and not kwargs and os.path.exists(_cache):\n        return np.load(_cache)\n"
+     "    dm = np.empty((m * (m - 1)) // 2, dtype=dtype)\n    k = 0\n    for i in range(0, m - 1):\n        for j in range(i + 1, m):\n            dm[k] = metric(strings[i], strings[j], **kwargs)\n            k += 1\n"
+     "    if metric is levenshtein_distance and not kwargs and m > 2:\n        os.makedirs(os.path.dirname(_cache), exist_ok=True)\n        np.save(_cache, dm)\n    return dm\n",
+     "pdist keeps a result cache on disk (~/.cache/pyrepseq) keyed by the number and total length of the strings only: state outside the interpreter"),
+    ("M20v", "C20", DI,
+     "    distances = metric.calc_pdist_vector(seqs)\n    linkage = hc.linkage(distances, **linkage_kws)\n",
+     "    distances = metric.calc_pdist_vector(seqs)\n    import tempfile\n    _f = os.path.join(tempfile.gettempdir(), 'pyrepseq-linkage-%d.npy' % len(distances))\n"
+     "    if os.path.exists(_f):\n        linkage = np.load(_f)\n    else:\n        linkage = hc.linkage(distances, **linkage_kws)\n        np.save(_f, linkage)\n    cluster = hc.fcluster(linkage, **cluster_kws)\n    return linkage, cluster\n",
+     "hierarchical_clustering keeps the linkage in a file of the temp directory keyed by the number of distances only"),
     ("M20t", "C20", NN, "        return _make_output(ans, output_type, self.seqs, seqs2)\n\n\ndef _hamming_replacement",
      "        self._last = ans\n        return _make_output(ans, output_type, self.seqs, seqs2)\n\n\ndef _hamming_replacement",
      "benign control: SymdelDB.lookup keeps a reference to its last answer on the object (caller-visible object state changes, later results do not)"),
 ]
+
+
+def _mk(d):
+    os.makedirs(d, exist_ok=True)
+    return d
 
 
 def run(cmd, **kw):
@@ -183,7 +200,8 @@ def main(argv):
         open(f, "w").write(src)
         if suite:
             p = run(["/venv/bin/python", "-m", "pytest", "-q", "-p", "no:cacheprovider", "--timeout=900",
-                     "--continue-on-collection-errors"], cwd=scratch)
+                     "--continue-on-collection-errors"], cwd=scratch,
+                    env=dict(os.environ, MPLBACKEND="Agg", HOME=os.path.join(scratch, ".home"), TMPDIR=_mk(os.path.join(scratch, ".tmp"))))
             tail = p.stdout.strip().splitlines()[-1] if p.stdout.strip() else ""
             rec["suite"] = tail
             rec["suite_green"] = "71 passed" in tail and "4 failed" in tail
